@@ -80,6 +80,9 @@ def gen_spec(rnd: random.Random, stratum: str):
 
     def via(parent):
         r = rnd.random()
+        if stratum == "diamond" or r > 0.85:
+            return {"t": "diamond", "of": parent, "order": rnd.choice(["ba", "ba", "ab"]), "weak": rnd.random() < 0.4,
+                    "levels": rnd.choice([2, 2, 3]), "vn": rnd.random() < 0.2}
         if stratum == "per_obs_off" and r < 0.5:
             return {"t": "var", "of": parent}
         if r < 0.25:
@@ -116,6 +119,13 @@ def gen_spec(rnd: random.Random, stratum: str):
     return spec
 
 
+CORPUS_DIAMOND = {"spec": {"vars": [
+    {"name": "a", "prefix": [], "dist": {"family": "normal", "loc": {"t": "const", "v": 0.0}, "scale": 2.0, "kw": True, "per_obs": True}},
+    {"name": "b", "prefix": [3], "dist": {"family": "normal", "loc": {"t": "diamond", "of": "a", "order": "ba", "weak": True, "levels": 2, "vn": False},
+                                           "scale": 0.5, "kw": True, "per_obs": True}}]},
+    "ops": [["auto", False]], "skip": [], "seed": 0}
+
+
 def _rand_array(rnd, shape):
     import numpy as np
     n = 1
@@ -132,6 +142,12 @@ def gen_ops(rnd: random.Random, spec, stratum):
     auto = True
     if stratum in ("coherent_on",):
         auto = True
+    elif stratum == "diamond":
+        auto = rnd.random() < 0.25
+        ops.append(["auto", auto])
+        if rnd.random() < 0.3:
+            nm = rnd.choice(names)
+            ops.append(["set", nm, _rand_array(rnd, sh[nm])])
     elif stratum in ("coherent_off", "per_obs_off"):
         auto = False
         ops.append(["auto", False])
@@ -169,7 +185,7 @@ def gen_ops(rnd: random.Random, spec, stratum):
     return ops, skip, auto
 
 
-STRATA = ["coherent_on", "coherent_off", "per_obs_off", "outdated", "reshape_stale", "reshape_updated", "mixed"]
+STRATA = ["coherent_on", "coherent_off", "diamond", "per_obs_off", "outdated", "reshape_stale", "reshape_updated", "mixed"]
 
 CORPUS = [
     # C17-2 class: vector variable, per_obs = False, auto-update off
@@ -181,6 +197,7 @@ CORPUS = [
                        {"name": "b", "prefix": [], "dist": {"family": "normal", "loc": {"t": "calc", "of": "a", "kind": "weak", "a": 2.0, "b": 0.0, "vn": False, "depth": 1},
                                                             "scale": 0.5, "kw": False, "per_obs": True}}]},
      "ops": [["auto", False], ["set", "a", [0.0, 0.0, 0.0]], ["set", "b", [0.0, 0.0, 0.0]]], "skip": [], "seed": 7},
+    # (the two-level diamond of seeded C17-4 is CORPUS_DIAMOND above)
     # C17-1 class: keyword parameters behind a cached Calc, auto-update off, sample prefix (4,)
     {"spec": {"vars": [{"name": "a", "prefix": [], "dist": {"family": "normal", "loc": {"t": "const", "v": 1000.0}, "scale": 1.0, "kw": True, "per_obs": True}},
                        {"name": "b", "prefix": [4], "dist": {"family": "normal", "loc": {"t": "calc", "of": "a", "kind": "calc", "a": 1.0, "b": 100.0, "vn": False, "depth": 2},
@@ -232,6 +249,20 @@ def build(spec, values=None, log=None):
             loc = jnp.float32(lp["v"]) if d["family"] == "normal" else jnp.full((len(d["scale"]),), lp["v"], dtype=jnp.float32)
         elif lp["t"] == "var":
             loc = objs[lp["of"]]
+        elif lp["t"] == "diamond":
+            # A = f(parent), B = f(A) [, B' = f(B)], loc = f(B, A) or f(A, B): cached Calcs (optionally weak Vars)
+            src = objs[lp["of"]].value_node if lp.get("vn") else objs[lp["of"]]
+
+            def wrap(nd, nm):
+                return lsl.Var(nd, name=nm + "_var") if lp["weak"] else nd
+            na = wrap(lsl.Calc(lambda x: 0.5 * x + 1.0, src, _name=f"{name}_dA"), f"{name}_dA")
+            nb = wrap(lsl.Calc(lambda x: 0.25 * x * x + 2.0, na, _name=f"{name}_dB"), f"{name}_dB")
+            if lp["levels"] == 3:
+                nb = wrap(lsl.Calc(lambda x: x + 1.0, nb, _name=f"{name}_dB2"), f"{name}_dB2")
+            if lp["order"] == "ba":
+                loc = wrap(lsl.Calc(lambda u, w: 10.0 * u + w, nb, na, _name=f"{name}_dC"), f"{name}_dC")
+            else:
+                loc = wrap(lsl.Calc(lambda w, u: 10.0 * u + w, na, nb, _name=f"{name}_dC"), f"{name}_dC")
         else:
             src = objs[lp["of"]].value_node if lp["vn"] else objs[lp["of"]]
             a, b = lp["a"], lp["b"]
@@ -452,7 +483,7 @@ def make_case(rnd, stratum):
 
 def corpus_cases():
     out = []
-    for e in CORPUS:
+    for e in CORPUS + [CORPUS_DIAMOND]:
         c = run(e["spec"], e["ops"], e["skip"], e["seed"])
         c["stratum"] = "corpus"
         c["rfail"] = check(c)
